@@ -13,6 +13,7 @@ import (
 	"time"
 
 	task "github.com/go-task/task/v3"
+	"github.com/go-task/task/v3/taskfile/ast"
 	"github.com/go-task/task/v3/verifhook"
 )
 
@@ -44,7 +45,11 @@ type sCmd struct {
 	Code      int  `json:"code"`
 	IgnoreErr bool `json:"ignore_err,omitempty"`
 	Deferred  bool `json:"deferred,omitempty"`
-	Var       int  `json:"var"` // value passed as V in a call (-1 = none)
+	// Var: what a call passes as variable V (model: Sched.Pass): -1 nothing, n >= 0 the literal 'n', -2 '{{.EXIT_CODE}}'
+	// (deferred calls), -3 '{{.LOCAL}}' (a task-level variable of the calling task), -4 '{{.V}}' (the caller's own V)
+	Var int `json:"var"`
+	// TplName (rendering only): the callee's name is written as a template over a variable of the calling task
+	TplName bool `json:"tpl_name,omitempty"`
 	// CallIgnore: `ignore_error: true` written on a `task:` command.  Task does not read that key on task
 	// calls (only on shell commands and on tasks), so it must change nothing: it is not part of the model's program.
 	CallIgnore bool `json:"call_ignore,omitempty"`
@@ -56,6 +61,8 @@ type sDep struct {
 	Task int `json:"task"`
 	Var  int `json:"var"`
 	Ref  int `json:"ref,omitempty"` // rendering only, see refName
+	// TplName (rendering only): the name is written as a template over a variable of the depending task
+	TplName bool `json:"tpl_name,omitempty"`
 }
 
 type sTask struct {
@@ -74,6 +81,12 @@ type sTask struct {
 	// executed, in a task-level field: 1 label, 2 env, 3 prefix, 4 summary (not `dir:` — that one is templated by
 	// the variable compiler already, so FastCompiledTask reports it, before the platform check).  CompileSrc (rendering only): the task
 	// also declares `sources:`, so that compiling it goes through the checksum variable and the templater's reset
+	// EnumKind (rendering only): how the variable checked against `enum:` gets its value.  0: a string in the task's
+	// vars, the requirement written only when EnumOk is false (`EV: bad` against [good]).  > 0: the requirement is
+	// always written and the value — allowed or not, by EnumOk — is NOT a YAML string: 1 a number in the task's vars
+	// (`EV: 3` / `EV: 1` against ['1','2']), 2 a boolean (`EV: true` / `EV: false` against ['false','no']), 3 a number
+	// passed by every reference (`vars: {EV: 3}` in deps / task: entries / on the command line)
+	EnumKind   int  `json:"enum_kind,omitempty"`
 	CompileErr int  `json:"compile_err,omitempty"`
 	CompileSrc bool `json:"compile_src,omitempty"`
 	// Rendering only — the model's program does not know how a task is named:
@@ -90,7 +103,10 @@ type schedCase struct {
 	CallRefs []int   `json:"call_refs,omitempty"` // rendering only: the name each command-line call uses (refName)
 	// Inc (rendering only): the tasks live in an included Taskfile (namespace `n`) and their own names there
 	// contain ':' and all end in the same segment (`t3:k`, `t4:k`, aliases `t3a:k`, wildcard `t3:k-*`)
-	Inc      bool   `json:"inc,omitempty"`
+	Inc bool `json:"inc,omitempty"`
+	// MixNames (rendering only): a run: when_changed task may be referred to by its key AND by an alias in one
+	// program.  Off in generated programs: the two get different keys (open finding C06-when-changed-alias-key).
+	MixNames bool   `json:"mix_names,omitempty"`
 	Cap      int    `json:"cap"` // 0 = unlimited
 	Parallel bool   `json:"parallel,omitempty"`
 	Force    bool   `json:"force,omitempty"`
@@ -168,6 +184,10 @@ func (d schedCase) refName(i, ref int) string {
 			ref = 0
 		}
 		return nm + "-" + wildWords[ref%len(wildWords)]
+	case t.Aliases > 0 && t.Run == "when_changed" && !d.MixNames:
+		// GetTask sets the call variable MATCH for a name that is a key (or a wildcard match) and leaves it unset for an
+		// alias, and call variables are part of the when_changed key: generated programs keep to ONE name per task
+		return d.aliasName(i, 0)
 	case ref > 0 && t.Aliases > 0:
 		return d.aliasName(i, (ref-1)%t.Aliases)
 	}
@@ -185,6 +205,63 @@ func (d schedCase) cliName(k int) string {
 		nm = "n:" + nm
 	}
 	return nm
+}
+
+// passText: the template a reference writes for V (nothing for -1)
+func passText(v int) string {
+	switch {
+	case v >= 0:
+		return fmt.Sprintf("V: '%d'", v)
+	case v == -2:
+		return "V: '{{.EXIT_CODE}}'"
+	case v == -3:
+		return "V: '{{.LOCAL}}'"
+	case v == -4:
+		return "V: '{{.V}}'"
+	}
+	return ""
+}
+
+// enumVal: the (non-string) value of the checked variable for EnumKind 1..3
+func enumVal(t sTask) string {
+	switch t.EnumKind {
+	case 1, 3:
+		if t.EnumOk {
+			return "1"
+		}
+		return "3"
+	case 2:
+		if t.EnumOk {
+			return "false"
+		}
+		return "true"
+	}
+	return "bad"
+}
+
+func enumList(t sTask) string {
+	switch t.EnumKind {
+	case 1, 3:
+		return "['1', '2']"
+	case 2:
+		return "['false', 'no']"
+	}
+	return "[good]"
+}
+
+// refVars: the vars: mapping of a reference to task `callee` passing `v` (flow style; "" if empty)
+func (d schedCase) refVars(callee, v int) string {
+	var es []string
+	if pt := passText(v); pt != "" {
+		es = append(es, pt)
+	}
+	if callee >= 0 && callee < len(d.Tasks) && d.Tasks[callee].EnumKind == 3 {
+		es = append(es, "EV: "+enumVal(d.Tasks[callee]))
+	}
+	if len(es) == 0 {
+		return ""
+	}
+	return "{" + strings.Join(es, ", ") + "}"
 }
 
 func renderSched(d schedCase) (string, string) {
@@ -211,12 +288,45 @@ func renderSched(d schedCase) (string, string) {
 		if !t.PlatformOk {
 			b.WriteString("    platforms: [windows/386]\n")
 		}
-		if !t.RequiresOk && !t.EnumOk {
-			b.WriteString("    requires:\n      vars: [MISSING_REQ, {name: EV, enum: [good]}]\n    vars: {EV: bad}\n")
-		} else if !t.RequiresOk {
-			b.WriteString("    requires:\n      vars: [MISSING_REQ]\n")
-		} else if !t.EnumOk {
-			b.WriteString("    requires:\n      vars: [{name: EV, enum: [good]}]\n    vars: {EV: bad}\n")
+		// the task's own variables: the value checked against enum:, LOCAL (handed on by references that pass it),
+		// and the names of callees written as templates
+		var tvars []string
+		enumReq := !t.EnumOk || t.EnumKind > 0
+		if enumReq && t.EnumKind != 3 {
+			tvars = append(tvars, "EV: "+enumVal(t))
+		}
+		usesLocal := false
+		for j, dp := range t.Deps {
+			if dp.Var == -3 {
+				usesLocal = true
+			}
+			if dp.TplName {
+				tvars = append(tvars, fmt.Sprintf("NMd%d: %q", j, d.refName(dp.Task, dp.Ref)))
+			}
+		}
+		for j, c := range t.Cmds {
+			if c.Call >= 0 && c.Var == -3 {
+				usesLocal = true
+			}
+			if c.Call >= 0 && c.TplName {
+				tvars = append(tvars, fmt.Sprintf("NMc%d: %q", j, d.refName(c.Call, c.Ref)))
+			}
+		}
+		if usesLocal {
+			tvars = append(tvars, fmt.Sprintf("LOCAL: 'L%d'", i))
+		}
+		var reqs []string
+		if !t.RequiresOk {
+			reqs = append(reqs, "MISSING_REQ")
+		}
+		if enumReq {
+			reqs = append(reqs, "{name: EV, enum: "+enumList(t)+"}")
+		}
+		if len(reqs) > 0 {
+			fmt.Fprintf(&b, "    requires:\n      vars: [%s]\n", strings.Join(reqs, ", "))
+		}
+		if len(tvars) > 0 {
+			fmt.Fprintf(&b, "    vars: {%s}\n", strings.Join(tvars, ", "))
 		}
 		if !t.PrecondOk {
 			b.WriteString("    preconditions:\n      - sh: 'exit 1'\n        msg: nope\n")
@@ -240,33 +350,42 @@ func renderSched(d schedCase) (string, string) {
 		if t.CompileErr > 0 && t.CompileSrc {
 			b.WriteString("    sources: ['Taskfile.yml']\n")
 		}
+		nameOf := func(callee, ref int, tpl bool, pos string) string {
+			if tpl {
+				return fmt.Sprintf("'{{.NM%s}}'", pos)
+			}
+			return fmt.Sprintf("%q", d.refName(callee, ref))
+		}
 		if len(t.Deps) > 0 {
 			b.WriteString("    deps:\n")
-			for _, dp := range t.Deps {
-				if dp.Var >= 0 {
-					fmt.Fprintf(&b, "      - task: %q\n        vars: {V: '%d'}\n", d.refName(dp.Task, dp.Ref), dp.Var)
-				} else {
-					fmt.Fprintf(&b, "      - task: %q\n", d.refName(dp.Task, dp.Ref))
+			for j, dp := range t.Deps {
+				fmt.Fprintf(&b, "      - task: %s\n", nameOf(dp.Task, dp.Ref, dp.TplName, fmt.Sprintf("d%d", j)))
+				if vs := d.refVars(dp.Task, dp.Var); vs != "" {
+					fmt.Fprintf(&b, "        vars: %s\n", vs)
 				}
 			}
 		}
 		if len(t.Cmds) > 0 {
 			b.WriteString("    cmds:\n")
-			for _, c := range t.Cmds {
+			for j, c := range t.Cmds {
+				pos := fmt.Sprintf("c%d", j)
 				switch {
 				case c.Call >= 0 && c.Deferred:
-					fmt.Fprintf(&b, "      - defer: {task: %q}\n", d.refName(c.Call, c.Ref))
-				case c.Call >= 0:
-					if c.Var >= 0 {
-						fmt.Fprintf(&b, "      - task: %q\n        vars: {V: '%d'}\n", d.refName(c.Call, c.Ref), c.Var)
+					if vs := d.refVars(c.Call, c.Var); vs != "" {
+						fmt.Fprintf(&b, "      - defer: {task: %s, vars: %s}\n", nameOf(c.Call, c.Ref, c.TplName, pos), vs)
 					} else {
-						fmt.Fprintf(&b, "      - task: %q\n", d.refName(c.Call, c.Ref))
+						fmt.Fprintf(&b, "      - defer: {task: %s}\n", nameOf(c.Call, c.Ref, c.TplName, pos))
+					}
+				case c.Call >= 0:
+					fmt.Fprintf(&b, "      - task: %s\n", nameOf(c.Call, c.Ref, c.TplName, pos))
+					if vs := d.refVars(c.Call, c.Var); vs != "" {
+						fmt.Fprintf(&b, "        vars: %s\n", vs)
 					}
 					if c.CallIgnore {
 						b.WriteString("        ignore_error: true\n")
 					}
 				case c.Deferred:
-					fmt.Fprintf(&b, "      - defer: ': \"EC=[{{.EXIT_CODE}}]\"; exit %d'\n", c.Code)
+					fmt.Fprintf(&b, "      - defer: ': \"EC=[{{.EXIT_CODE}}] V={{.V}}\"; exit %d'\n", c.Code)
 				default:
 					if d.Barrier > 0 {
 						fmt.Fprintf(&b, "      - cmd: 'printf B; exit %d'\n", c.Code)
@@ -347,7 +466,70 @@ func progTokens(d schedCase) string {
 	for _, c := range d.Calls {
 		fmt.Fprintf(&b, " %d", c)
 	}
+	// what every reference passes as V (model: Sched.Passes)
+	pt := func(v int) string {
+		switch {
+		case v >= 0:
+			return fmt.Sprintf(" l %d", v)
+		case v == -2:
+			return " e"
+		case v == -3:
+			return " o"
+		case v == -4:
+			return " w"
+		}
+		return " n"
+	}
+	fmt.Fprintf(&b, " V %d", len(d.Tasks))
+	for _, t := range d.Tasks {
+		fmt.Fprintf(&b, " %d", len(t.Deps))
+		for _, dp := range t.Deps {
+			b.WriteString(pt(dp.Var))
+		}
+		fmt.Fprintf(&b, " %d", len(t.Cmds))
+		for _, c := range t.Cmds {
+			if c.Call >= 0 {
+				b.WriteString(pt(c.Var))
+			} else {
+				b.WriteString(" n")
+			}
+		}
+	}
 	return b.String()
+}
+
+var vRe = regexp.MustCompile(`V=([^" ]*)"`)
+
+// valCode: the model's encoding of a printed value of V (Sched.MonVal): "" -> 0, the numeral n -> 2n+3, L<t> -> 2t+2
+func valCode(v string) int {
+	if v == "" {
+		return 0
+	}
+	if n, err := strconv.Atoi(v); err == nil && n >= 0 {
+		return 2*n + 3
+	}
+	if strings.HasPrefix(v, "L") {
+		if n, err := strconv.Atoi(v[1:]); err == nil && n >= 0 {
+			return 2*n + 2
+		}
+	}
+	return 999999999
+}
+
+// obsTokens: the value of V every started command of the log shows (the command text is logged after templating)
+func obsTokens(o schedObs) string {
+	var b strings.Builder
+	n := 0
+	for _, ev := range o.events {
+		if ev.Kind != "cmdStart" {
+			continue
+		}
+		if m := vRe.FindStringSubmatch(strings.Join(ev.Args, " ")); m != nil {
+			fmt.Fprintf(&b, " %d %d", ev.Act, valCode(m[1]))
+			n++
+		}
+	}
+	return fmt.Sprintf("O %d%s", n, b.String())
 }
 
 type schedObs struct {
@@ -426,8 +608,13 @@ func runSchedImpl(d schedCase, dir string) schedObs {
 	}
 	calls := make([]*task.Call, len(d.Calls))
 	for i, c := range d.Calls {
-		_ = c
 		calls[i] = &task.Call{Task: d.cliName(i)}
+		if c >= 0 && c < len(d.Tasks) && d.Tasks[c].EnumKind == 3 {
+			// the checked variable arrives as a call variable that is a number, not a string
+			vs := ast.NewVars()
+			vs.Set("EV", ast.Var{Value: map[bool]int{true: 1, false: 3}[d.Tasks[c].EnumOk]})
+			calls[i].Vars = vs
+		}
 	}
 	verifhook.Reset(d.Seed, d.Jitter)
 	done := make(chan error, 1)
@@ -555,7 +742,7 @@ func maxAlive(evs []verifhook.Event) int {
 
 var schedCaseNo int
 
-const schedAccept = "accept C01=1 C02=1 C03=1 C06=1 C07=1 C13=1 C14=1 C03s=1"
+const schedAccept = "accept C01=1 C02=1 C03=1 C06=1 C07=1 C13=1 C14=1 C03s=1 C02v=1 C06k=1"
 
 func evalSched(d schedCase) (string, string, schedObs) {
 	schedCaseNo++
@@ -565,10 +752,10 @@ func evalSched(d schedCase) (string, string, schedObs) {
 	}
 	o := runSchedImpl(d, dir)
 	if o.setupErr != "" {
-		return "sched.run " + progTokens(d) + " E 0 R gen", "setup-error " + hx(o.setupErr), o
+		return "sched.run " + progTokens(d) + " E 0 R gen O 0", "setup-error " + hx(o.setupErr), o
 	}
 	tr, _, _ := traceTokens(o)
-	line := "sched.run " + progTokens(d) + " " + tr + " R " + o.result
+	line := "sched.run " + progTokens(d) + " " + tr + " R " + o.result + " " + obsTokens(o)
 	if o.hang {
 		return line, "hang", o
 	}
@@ -1092,17 +1279,138 @@ func (c *Ctx) decorate(d *schedCase) {
 		}
 		for j := range t.Deps {
 			t.Deps[j].Ref = r.Intn(3)
+			t.Deps[j].TplName = r.Intn(8) == 0
 		}
 		for j := range t.Cmds {
 			if t.Cmds[j].Call >= 0 {
 				t.Cmds[j].Ref = r.Intn(3)
+				// a deferred task call is templated when it runs, the others when the task is compiled
+				t.Cmds[j].TplName = r.Intn(map[bool]int{true: 3, false: 8}[t.Cmds[j].Deferred]) == 0
 			}
+		}
+		if t.EnumKind == 0 && r.Intn(3) == 0 {
+			// the checked variable is a YAML number / boolean / arrives as a number in the call
+			t.EnumKind = 1 + r.Intn(3)
 		}
 	}
 	d.CallRefs = make([]int, len(d.Calls))
 	for k := range d.CallRefs {
 		d.CallRefs[k] = r.Intn(3)
 	}
+}
+
+// passify: what the references of a generated program hand to their callees as V (program data: the model's
+// Passes).  A reference that passes nothing so far gets, with probability 1/2, a literal, a variable of the
+// referring task or the referrer's own V; a deferred task call may pass the exit code its task ends with.
+func (c *Ctx) passify(d *schedCase) {
+	r := c.Rng
+	pick := func(deferred bool) int {
+		switch r.Intn(8) {
+		case 0:
+			return r.Intn(3)
+		case 1:
+			return -3
+		case 2:
+			return -4
+		case 3, 4:
+			if deferred {
+				return -2
+			}
+		}
+		return -1
+	}
+	for i := range d.Tasks {
+		t := &d.Tasks[i]
+		for j := range t.Deps {
+			if t.Deps[j].Var == -1 {
+				t.Deps[j].Var = pick(false)
+			}
+		}
+		for j := range t.Cmds {
+			if t.Cmds[j].Call >= 0 && t.Cmds[j].Var == -1 {
+				t.Cmds[j].Var = pick(t.Cmds[j].Deferred)
+			}
+		}
+	}
+}
+
+// genDeferCall: a task whose body fails with an exit status (or not) has deferred task: entries that hand the
+// callee the exit code (`vars: {V: '{{.EXIT_CODE}}'}`), a variable of the deferring task, a literal, its own V,
+// or nothing — some with a templated task name; the callee prints what it got.  The callers tolerate the failure
+// and call the task again, so the activations of one definition end with different codes.
+func (c *Ctx) genDeferCall() schedCase {
+	r := c.Rng
+	d := schedCase{Cap: []int{0, 0, 1, 2}[r.Intn(4)], Jitter: []int64{0, 0, 200}[r.Intn(3)], Seed: r.Int63(), Calls: []int{0}}
+	// t2: the callee of the deferred entries
+	callee := mkTask()
+	callee.Cmds = []sCmd{shOk()}
+	callee.Run = []string{"always", "always", "when_changed", "once"}[r.Intn(4)]
+	// t1: the deferring task
+	t1 := mkTask()
+	for k := 1 + r.Intn(3); k > 0; k-- {
+		t1.Cmds = append(t1.Cmds, sCmd{Call: 2, Deferred: true, Var: []int{-2, -2, -3, -4, 0, 1, -1}[r.Intn(7)]})
+	}
+	if r.Intn(3) == 0 {
+		t1.Cmds = append(t1.Cmds, sCmd{Call: -1, Var: -1, Deferred: true})
+	}
+	t1.Cmds = append(t1.Cmds, shOk())
+	code := 1 + r.Intn(9)
+	switch r.Intn(4) {
+	case 0:
+		t1.Cmds = append(t1.Cmds, sCmd{Call: -1, Var: -1, Code: 1000 + code})
+	case 1:
+		t1.Cmds = append(t1.Cmds, sCmd{Call: -1, Var: -1, Code: 2000 + code})
+	case 2:
+		t1.Cmds = append(t1.Cmds, sCmd{Call: -1, Var: -1, Code: code})
+	default:
+		t1.Cmds = append(t1.Cmds, shOk())
+	}
+	t0 := mkTask()
+	t0.IgnoreError = true
+	for k := 1 + r.Intn(3); k > 0; k-- {
+		t0.Cmds = append(t0.Cmds, sCmd{Call: 1, Var: []int{-1, 0, 1, 2}[r.Intn(4)]})
+	}
+	d.Tasks = []sTask{t0, t1, callee}
+	return d
+}
+
+// genOnceGroup: several DIFFERENT deduplicated tasks are reached in one invocation, each from two places
+// (dependencies and task: entries of a root and of one another); each must execute — once — on its own.
+func (c *Ctx) genOnceGroup() schedCase {
+	r := c.Rng
+	d := schedCase{Cap: []int{0, 0, 2}[r.Intn(3)], Jitter: []int64{0, 100, 500}[r.Intn(3)], Seed: r.Int63(), Calls: []int{0}}
+	k := 2 + r.Intn(3)
+	root := mkTask()
+	d.Tasks = []sTask{root}
+	for i := 1; i <= k; i++ {
+		t := mkTask()
+		t.Run = []string{"once", "once", "when_changed"}[r.Intn(3)]
+		t.Cmds = []sCmd{shOk()}
+		if i < k && r.Intn(2) == 0 {
+			if r.Intn(2) == 0 {
+				t.Deps = []sDep{{Task: i + 1, Var: -1}}
+			} else {
+				t.Cmds = append(t.Cmds, sCmd{Call: i + 1, Var: -1})
+			}
+		}
+		d.Tasks = append(d.Tasks, t)
+	}
+	for i := 1; i <= k; i++ {
+		if r.Intn(2) == 0 {
+			d.Tasks[0].Deps = append(d.Tasks[0].Deps, sDep{Task: i, Var: -1})
+		} else {
+			d.Tasks[0].Cmds = append(d.Tasks[0].Cmds, sCmd{Call: i, Var: -1})
+		}
+		if r.Intn(2) == 0 {
+			d.Tasks[0].Cmds = append(d.Tasks[0].Cmds, sCmd{Call: i, Var: -1})
+		}
+	}
+	d.Tasks[0].Cmds = append(d.Tasks[0].Cmds, shOk())
+	if r.Intn(3) == 0 {
+		d.Parallel = true
+		d.Calls = []int{0, 1 + r.Intn(k)}
+	}
+	return d
 }
 
 func mkTask() sTask {
@@ -1347,6 +1655,39 @@ func (c *Ctx) genPromptSlots() schedCase {
 	return d
 }
 
+// valueHits: which kinds of passed values the run's commands showed
+func (c *Ctx) valueHits(d schedCase, o schedObs) {
+	kindOf := map[int64][2]string{}
+	for _, e := range o.events {
+		switch e.Kind {
+		case "enter":
+			kindOf[e.Act] = [2]string{e.Args[0], e.Args[3]}
+		case "cmdStart":
+			m := vRe.FindStringSubmatch(strings.Join(e.Args, " "))
+			if m == nil || m[1] == "" {
+				continue
+			}
+			k := kindOf[e.Act][0]
+			switch {
+			case strings.HasPrefix(m[1], "L"):
+				c.Hit("value:" + k + ":variable-of-the-referrer")
+			default:
+				c.Hit("value:" + k + ":number")
+			}
+		}
+	}
+	for _, t := range d.Tasks {
+		for _, cm := range t.Cmds {
+			if cm.Call >= 0 && cm.Deferred && cm.TplName {
+				c.Hit("render:deferred-call-templated-name")
+			}
+		}
+		if t.EnumKind > 0 {
+			c.Hit(fmt.Sprintf("render:enum-kind-%d:ok=%v", t.EnumKind, t.EnumOk))
+		}
+	}
+}
+
 // renderHits: which kinds of names the activations of the run were called by
 func (c *Ctx) renderHits(d schedCase, o schedObs) {
 	for _, e := range o.events {
@@ -1468,10 +1809,22 @@ func runSched(c *Ctx) {
 		} else if i%20 == 11 {
 			d = c.genPromptSlots()
 			c.Hit("stream:prompt-slots")
+		} else if i%20 == 17 {
+			d = c.genDeferCall()
+			c.Hit("stream:defer-call-vars")
+		} else if i%20 == 16 {
+			d = c.genOnceGroup()
+			c.Hit("stream:once-group")
 		} else {
 			d = c.genSched(c.Pick(7, 10), false)
 		}
+		if d.Barrier == 0 {
+			c.passify(&d)
+		}
 		c.decorate(&d)
+		if i%20 == 16 {
+			d.Inc = i%40 == 16 // every other group lives in an included file, under names sharing their last segment
+		}
 		for s := 0; s < sched && !(cyclic && s > 0); s++ {
 			d.Seed = c.Rng.Int63()
 			if s > 0 && !cyclic && d.Barrier == 0 {
@@ -1515,6 +1868,7 @@ func runSched(c *Ctx) {
 				}
 			}
 			c.renderHits(d, o)
+			c.valueHits(d, o)
 			if maxAlive(o.events) >= 2 || kinds["waiter"] || kinds["precondFail"] || kinds["promptFail"] || kinds["upToDate"] || o.result != "ok" {
 				c.Distinct(schedKey(d, o))
 			}
